@@ -15,7 +15,7 @@ func pillars(s *calendar.Solar, sect int) []string {
 // c10: eight-character reverse lookup around the moments where it is delicate
 func c10Lookups(c *ctx) {
 	now := time.Now().Local().Year()
-	bases := []int{1900, 1800, 1984, 2000}
+	bases := []int{1900, 1800, 1984, 2000, 1500}
 	perBase := c.argInt("years", 25)
 	c.emit(obj{"ev": "C10Env", "now": now})
 	c.header = func() { c.emit(obj{"ev": "C10Env", "now": now}) }
@@ -67,7 +67,9 @@ func c10Lookups(c *ctx) {
 					continue
 				}
 				sod := row[4].(int)*3600 + row[5].(int)*60 + row[6].(int)
-				if i == 2 {
+				if xiaohan == nil {
+					// the first Jie instant inside civil year y (Xiaohan in the Gregorian era; in the Julian era Xiaohan
+					// falls in the previous December and the first one is Lichun)
 					xiaohan, _ = safeSolar(ty, tm, td, row[4].(int), row[5].(int), row[6].(int))
 				}
 				h := sod / 3600
